@@ -3,7 +3,7 @@
 From Coq Require Import List Arith Bool NArith.
 Import ListNotations.
 Require Import Verif.Model.C13 Verif.Gen.C13_NilnessTable Verif.Model.C13_Nilness.
-Require Import Verif.Proofs.C13 Verif.Proofs.C13_Lattices Verif.Proofs.C13_Sparse Verif.Proofs.C13_Nilness.
+Require Import Verif.Proofs.C13 Verif.Proofs.C13_Lattices Verif.Proofs.C13_MapLattice Verif.Proofs.C13_Sparse Verif.Proofs.C13_Nilness.
 
 (* ---- dense solver: for every lawful semilattice, every finite multigraph, every transfer function and
    entry map and EVERY pick order (run with an arbitrary pick function; the priority heap is one) *)
@@ -74,7 +74,58 @@ Proof.
 Qed.
 Print Assumptions dense_terminates.
 
+(* ---- sparse solver (Instance.Forward), any pick order (Go's map iteration order), under the stated premise:
+   transfer functions write only the instruction's own value and read only its operands *)
+Theorem sparse_fixpoint_least :
+  forall (F : Type) (L : Semilattice F) (LL : SemilatticeLaws F)
+         (instrs : list (list nat * bool)) (tself : nat -> (nat -> F) -> option F)
+         (m0 : list (nat * F)) (pick : list nat -> nat) (fuel : nat) (s : sstate),
+    (forall i m m', (forall v, In v (ops_of instrs i) -> m v = m' v) -> tself i m = tself i m') ->
+    srun instrs (transfer_of tself) pick fuel (sinit instrs m0) = Some s ->
+    (* a solution: every phi is the merge of its edges, every other value the transfer of its operands' states *)
+    (forall i, i < ni instrs -> fix_at instrs tself (value s) i) /\
+    (* below every post-solution above the initial mapping *)
+    (mono_tself tself ->
+     forall m' : nat -> F,
+       (forall v, leq (lookup m0 v) (m' v)) ->
+       (forall i x, i < ni instrs -> target instrs tself i m' = Some x -> leq x (m' i)) ->
+       forall v, leq (value s v) (m' v)).
+Proof.
+  exact sparse_fixpoint_least_run.
+Qed.
+Print Assumptions sparse_fixpoint_least.
+
+(* without the premise the statement is false of the faithful model (DESIGN F14): the solver re-enqueues the
+   referrers of the instruction it ran, not of the value a mapping is about *)
+Theorem sparse_wrong_referrers_refuted :
+  exists picks s,
+    @ssteps N BitsSemilattice f14_instrs f14_transfer picks (@sinit N f14_instrs []) = Some s /\
+    swork s = [] /\
+    @value N BitsSemilattice s 2 <> @value N BitsSemilattice s 1.
+Proof. exact Verif.Proofs.C13_Sparse.sparse_wrong_referrers_refuted. Qed.
+Print Assumptions sparse_wrong_referrers_refuted.
+
 (* ---- lattices *)
+(* dfa.MapLattice over any lawful element lattice, on maps satisfying the representation invariant stated in
+   lattice.go (distinct keys, identity never stored): Merge does not panic and preserves the invariant; Equals is an
+   equivalence respected by Merge; associativity, commutativity, idempotence, identity *)
+Theorem map_lattice_laws :
+  forall (E : Type) (LE : Semilattice E), SemilatticeLaws E ->
+    wf [] /\
+    (forall a b, wf a -> wf b -> map_merge_opt a b <> None /\ wf (map_merge a b)) /\
+    (forall a, wf a -> map_equals a a = true) /\
+    (forall a b, wf a -> wf b -> map_equals a b = true -> map_equals b a = true) /\
+    (forall a b c, wf a -> wf b -> wf c -> map_equals a b = true -> map_equals b c = true -> map_equals a c = true) /\
+    (forall a a' b b', wf a -> wf a' -> wf b -> wf b' -> map_equals a a' = true -> map_equals b b' = true ->
+                       map_equals (map_merge a b) (map_merge a' b') = true) /\
+    (forall a b c, wf a -> wf b -> wf c ->
+                   map_equals (map_merge a (map_merge b c)) (map_merge (map_merge a b) c) = true) /\
+    (forall a b, wf a -> wf b -> map_equals (map_merge a b) (map_merge b a) = true) /\
+    (forall a, wf a -> map_equals (map_merge a a) a = true) /\
+    (forall a, wf a -> map_equals (map_merge a []) a = true).
+Proof. exact (fun E LE LLE => @map_lattice_laws_wf E LE LLE). Qed.
+Print Assumptions map_lattice_laws.
+
 Theorem dense_map_lattice_laws :
   forall (E : Type) (LE : Semilattice E), SemilatticeLaws E -> @SemilatticeLaws (list E) DenseMapSemilattice.
 Proof. exact (fun E LE LLE => @DenseMapLaws E LE LLE). Qed.
